@@ -15,7 +15,7 @@
    found (kappa_gt = true); the real-valued theorems assume A, B > 0. *)
 From Coq Require Import List ZArith QArith Bool Arith.
 Import ListNotations.
-Require Import MD.Hbond.Model MD.Hbond.Angle MD.Dssp.Model.
+Require Import MD.Hbond.Model MD.Hbond.Angle MD.Hbond.KsModel MD.Hbond.KsWrap MD.Dssp.Model.
 
 Definition cavec := option (Z * Z * Z).
 
@@ -27,58 +27,73 @@ Definition kappa_terms (p t nx : Z * Z * Z) : Z * Z * Z :=
     ((ux * vx + uy * vy + uz * vz)%Z, (ux * ux + uy * uy + uz * uz)%Z, (vx * vx + vy * vy + vz * vz)%Z)
   end.
 
-(* sure = true: certainly kappa > deg; sure = false: possibly *)
-Definition kappa_gt (sure : bool) (deg : Q) (p t nx : Z * Z * Z) : bool :=
+(* the test against a rational bound k = (kn, kd) on cos(threshold):  D / sqrt(A B) < kn / kd *)
+Definition kappa_lt_cos (k : Z * Z) (p t nx : Z * Z * Z) : bool :=
   match kappa_terms p t nx with
-  | (D, A, B) =>
-    if (A * B =? 0)%Z then true
-    else if sure then angle_gt_sure deg (2 * D) A B else angle_gt_maybe deg (2 * D) A B
+  | (D, A, B) => if (A * B =? 0)%Z then true else cos_lt (2 * D) A B (fst k) (snd k)
   end.
+
+(* sure = true: lower end of the enclosure of cos(deg degrees) (certainly kappa > deg); false: upper end (possibly) *)
+Definition cos_bound (sure : bool) (deg : Q) : Z * Z :=
+  pair_of_q (if sure then qcosdeg_lo deg else qcosdeg_hi deg).
+
+Definition kappa_gt (sure : bool) (deg : Q) (p t nx : Z * Z * Z) : bool := kappa_lt_cos (cos_bound sure deg) p t nx.
 
 Definition ca_at (ca : list cavec) (i : nat) : cavec := nth i ca None.
 
 (* the geometric flag of every residue: what the model's is_bend reads as "geom" (it is read only where the
    residues i-2, i, i+2 exist, are complete and lie in one chain; elsewhere the value is irrelevant) *)
-Definition geom_flags (sure : bool) (deg : Q) (ca : list cavec) : list bool :=
+Definition geom_flags_k (k : Z * Z) (ca : list cavec) : list bool :=
   map (fun i => match (if 2 <=? i then ca_at ca (i - 2) else None), ca_at ca i, ca_at ca (i + 2) with
-                | Some p, Some t, Some nx => kappa_gt sure deg p t nx
+                | Some p, Some t, Some nx => kappa_lt_cos k p t nx
                 | _, _, _ => false
                 end) (seq 0 (length ca)).
+Definition geom_flags (sure : bool) (deg : Q) (ca : list cavec) : list bool := geom_flags_k (cos_bound sure deg) ca.
 
-(* one end-to-end case with exact CA coordinates:
-   (simplified, n, chain ids, incomplete mask, H-bond table, CA coordinates, guard in degrees) *)
-Definition xyz_case_ty := (bool * nat * list nat * list bool * hbtable * list cavec * Q)%type.
-
+(* ---------------------------------------------------------------- correspondence glue *)
+(* threshold of today's source (regenerated table) and the guard band that covers mdtraj's float32 evaluation
+   of dot products, sqrtf and acosf (a few 1e-7 rad): 1/1000 degree = 1.7e-5 rad *)
 Definition bend_deg : Q := inject_Z (Z.of_nat MD.Gen.DsspTables.bend_angle_degrees).
+Definition bend_guard : Q := 1 # 1000.
+(* the two bounds, evaluated once when this file is compiled (Dssp/BendR.v: bend_bounds_are_the_enclosure) *)
+Definition bend_k_sure : Z * Z := Eval vm_compute in cos_bound true (Qplus bend_deg bend_guard).
+Definition bend_k_maybe : Z * Z := Eval vm_compute in cos_bound false (Qminus bend_deg bend_guard).
+Definition spec_k_sure : Z * Z := Eval vm_compute in cos_bound true (Qplus 70 bend_guard).
+Definition spec_k_maybe : Z * Z := Eval vm_compute in cos_bound false (Qminus 70 bend_guard).
+
+(* one end-to-end frame as the topology and the frame present it:
+   (chain index per residue, residues with their atom names, H-bond table, CA coordinates).
+   n = number of residues; the incomplete-residue mask (skip in dssp.cpp, not is_protein in dssp.py) is derived
+   by the model of _prep_kabsch_sander_arrays (Hbond/KsWrap.v): a residue lacks an atom named N, CA, C or O *)
+Definition xyz_frame_ty := (list nat * list res_desc * hbtable * list cavec)%type.
+Definition skip_of (rs : list res_desc) : list bool := map (fun r => r_skip (prep_residue r)) rs.
 
 (* residues whose bend flag is read by the model and is not decided by the enclosure +- guard *)
-Definition bend_ambiguous (n : nat) (ch : list nat) (skip : list bool) (ca : list cavec) (guard : Q) : list nat :=
-  let gs := geom_flags true (Qplus bend_deg guard) ca in
-  let gm := geom_flags false (Qminus bend_deg guard) ca in
+Definition bend_ambiguous (n : nat) (ch : list nat) (skip : list bool) (gs gm : list bool) : list nat :=
   filter (fun i => is_bend n ch skip (repeat true n) i && negb (Bool.eqb (nth i gs false) (nth i gm false)))
          (seq 0 n).
 
-(* None: some bend flag that matters lies within the guard band of the threshold (excluded, counted) *)
-Definition run_case_xyz (c : xyz_case_ty) : option (list String.string) :=
+(* (full codes, simplified codes) of one frame; None: some bend flag that matters lies within the guard band of
+   the threshold (the model abstains; counted) *)
+Definition run_frame_k (spec : bool) (ks km : Z * Z) (c : xyz_frame_ty) : option (list String.string * list String.string) :=
   match c with
-  | (simp, n, ch, skip, hb, ca, guard) =>
-    match bend_ambiguous n ch skip ca guard with
-    | [] => Some (compute_dssp simp n ch skip hb (geom_flags true (Qplus bend_deg guard) ca))
+  | (ch, rs, hb, ca) =>
+    let n := length rs in let skip := skip_of rs in
+    let gs := geom_flags_k ks ca in
+    let gm := geom_flags_k km ca in
+    match bend_ambiguous n ch skip gs gm with
+    | [] => if spec then Some (compute_dssp_spec false n ch skip hb gs, compute_dssp_spec true n ch skip hb gs)
+            else Some (compute_dssp false n ch skip hb gs, compute_dssp true n ch skip hb gs)
     | _ => None
     end
   end.
-Definition run_case_xyz_spec (c : xyz_case_ty) : option (list String.string) :=
-  match c with
-  | (simp, n, ch, skip, hb, ca, guard) =>
-    match bend_ambiguous n ch skip ca guard with
-    | [] => Some (compute_dssp_spec simp n ch skip hb (geom_flags true (Qplus 70 guard) ca))
-    | _ => None
-    end
-  end.
+Definition run_frame_xyz := run_frame_k false bend_k_sure bend_k_maybe.
+Definition run_frame_xyz_spec := run_frame_k true spec_k_sure spec_k_maybe.
 
-Definition check_xyz (o : option (list String.string)) (e : list String.string) : bool :=
-  match o with None => true | Some l => strs_eqb l e end.
-Definition xyz_excluded (c : xyz_case_ty) : bool :=
-  match run_case_xyz c with None => true | Some _ => false end.
-Definition run_sensitive_xyz (c : xyz_case_ty) : bool :=
-  match c with (_, n, ch, skip, hb, _, _) => sort_sensitive n ch skip hb end.
+Definition check_frame (o : option (list String.string * list String.string))
+           (e : list String.string * list String.string) : bool :=
+  match o with None => true | Some (f, s) => strs_eqb f (fst e) && strs_eqb s (snd e) end.
+Definition frame_excluded (o : option (list String.string * list String.string)) : bool :=
+  match o with None => true | Some _ => false end.
+Definition run_sensitive_xyz (c : xyz_frame_ty) : bool :=
+  match c with (ch, rs, hb, _) => sort_sensitive (length rs) ch (skip_of rs) hb end.
